@@ -273,8 +273,12 @@ func ruleTemporalClauses(c *core.Ctx) {
 	// volumes listing: one date column for both bounds, following UseInsertionDate
 	if d := fn(c, pkgStore, "volumesResourceHandler", "BuildDataset"); d != nil {
 		var pitCols, ootCols []string
+		inScopeDecl := map[*ast.FuncDecl]bool{}
+		for _, sd := range fnScope(c, d, 1) {
+			inScopeDecl[sd.Decl] = true
+		}
 		for _, u := range uses {
-			if u.stmt.Encl == d.Decl && len(u.stmt.Tables()) > 0 && u.stmt.Tables()[0] == "moves" {
+			if inScopeDecl[u.stmt.Encl] && len(u.stmt.Tables()) > 0 && u.stmt.Tables()[0] == "moves" {
 				if u.kind == "PIT" {
 					pitCols = append(pitCols, u.col)
 				} else {
